@@ -88,6 +88,9 @@ func (Engine) Execute(planJSON json.RawMessage, scratch string) (res sim.RunResu
 	if p.ConvGarble {
 		os.WriteFile(filepath.Join(vdir, "garblemode"), nil, 0o644)
 	}
+	if p.ConvDie {
+		os.WriteFile(filepath.Join(vdir, "diemode"), nil, 0o644)
+	}
 	for _, c := range p.Converters {
 		if VconvPath == "" {
 			res.Infra = "no converter executable configured"
@@ -208,6 +211,9 @@ func (Engine) Execute(planJSON json.RawMessage, scratch string) (res sim.RunResu
 		for _, e := range ents {
 			if strings.HasPrefix(e.Name(), "fail-") {
 				res.Count("fault_converter_transient_failure", 1)
+			}
+			if strings.HasPrefix(e.Name(), "die-") {
+				res.Count("fault_converter_dies_mid_input", 1)
 			}
 			if strings.HasPrefix(e.Name(), "garble-") {
 				res.Count("fault_converter_protocol_violation", 1)
@@ -387,6 +393,11 @@ func (Engine) Shrink(planJSON json.RawMessage, last *sim.RunResult) []json.RawMe
 	if p.ConvGarble {
 		q := clone()
 		q.ConvGarble = false
+		emit(q)
+	}
+	if p.ConvDie {
+		q := clone()
+		q.ConvDie = false
 		emit(q)
 	}
 	if len(p.Restarts) > 0 {
